@@ -61,6 +61,10 @@ func vfSameFrame(a, b Frame) bool {
 		}
 		d := x.DelayTime - y.DelayTime // the delay is carried in units of 2^exponent microseconds
 		return d > -8*time.Microsecond && d < 8*time.Microsecond
+	case *AckFrequencyFrame: // the requested delay travels in microseconds
+		y, ok := b.(*AckFrequencyFrame)
+		return ok && x.SequenceNumber == y.SequenceNumber && x.AckElicitingThreshold == y.AckElicitingThreshold &&
+			x.ReorderingThreshold == y.ReorderingThreshold && x.RequestMaxAckDelay/time.Microsecond == y.RequestMaxAckDelay/time.Microsecond
 	case *DatagramFrame:
 		y, ok := b.(*DatagramFrame)
 		return ok && bytes.Equal(x.Data, y.Data)
